@@ -37,6 +37,11 @@ def plan(tier, seed):
         specs.append({"klass": "random", "i": i, "backend": be, "fill": i >= 24, "remove_unused": i % 5 == 0, "alias": ENUM_ALIASES[(i // 4) % 2], "both_aliases": i % 6 == 1})
     for i in range(8 if tier == "quick" else 40):
         specs.append({"klass": "alias_direct", "i": i, "backend": "numpy"})
+    for i in range(10 if tier == "quick" else 80):
+        # generator options: fixed output shape (numpy), many states (two-digit slots)
+        specs.append({"klass": "shape_single", "i": 5000 + i, "backend": "numpy", "shape_opt": "single", "alias": ENUM_ALIASES[i % 2]})
+    for i in range(9 if tier == "quick" else 60):
+        specs.append({"klass": "many_states", "i": 6000 + i, "backend": ("jax", "numpy", "c")[i % 3], "n_states": 12 + i % 3, "alias": ENUM_ALIASES[i % 2], "soft_timeout": 300})
     for s in specs:
         s["prop"] = ID
     return specs
@@ -60,7 +65,8 @@ def run_case(spec, ctx):
     if spec["klass"] == "corpus":
         text = open(os.path.join(env.REPO, spec["file"])).read()
     else:
-        text = spec.get("text") or models.gen_model(rng, Profile(hard_lits=False), depth=rng.choice([2, 3])).render(rng)
+        kw = {"n_states": spec["n_states"], "n_inter": 6} if spec.get("n_states") else {}
+        text = spec.get("text") or models.gen_model(rng, Profile(hard_lits=False), depth=rng.choice([2, 3]) if not kw else 2, **kw).render(rng)
     out["hash"] = models.structural_hash(text) + ":" + spec["backend"]
     try:
         ref = RefModel.from_text(text)
@@ -93,7 +99,12 @@ def run_case(spec, ctx):
                 mods.append((al, B.open_module("numpy", code, ref)))
         else:
             both = bool(spec.get("both_aliases"))
-            oc = B.generate(be, ode, schemes=[alias] if not both else ENUM_ALIASES, remove_unused=rm)
+            opts = {}
+            if spec.get("shape_opt"):
+                from gotranx.codegen.base import Shape
+
+                opts["shape"] = Shape(spec["shape_opt"])
+            oc = B.generate(be, ode, schemes=[alias] if not both else ENUM_ALIASES, remove_unused=rm, **opts)
             if not oc.ok:
                 if not B.generate(be, ode, schemes=None, remove_unused=rm).ok:
                     out.update(status="skipped", reason="module cannot be generated even without the scheme (C01-C03): " + oc.describe()[:120])
